@@ -164,6 +164,60 @@ def work_ctx(job):
     return acc.result()
 
 
+def work_typemix(job):
+    """arrays that mix logicals, equal numbers and numeric text, through type-sensitive functions and operators with
+    scalar operands whose type matters (TRUE, blank, '', numeric text): element == scalar application"""
+    k0, m = job
+    from pycel.excelutil import AddressRange
+    acc = Acc()
+    ev, evs = feval.Evaluator(), feval.Evaluator()
+    pool = [1, True, 1.0, 0, False, '1', '', None, 'a']
+    funcs = ['=ISNUMBER({a})', '=ISLOGICAL({a})', '=ISTEXT({a})', '=LEN({a})', '=LEFT({a},2)', '={a}&""', '=EXACT({a},"1")',
+             '=IF({a},"y","n")', '=ISBLANK({a})', '={a}=1', '={a}=TRUE']
+    scalars = [True, False, None, '', '1', '007', 1, 'a']
+    ops = ['&', '=', '<>', '<', '+']
+    i = 0
+    for vec in itertools.permutations(pool, 4):
+        i += 1
+        if i % m != k0:
+            continue
+        for shape in ((2, 2), (1, 4), (4, 1)):
+            A = [list(vec[r * shape[1]:(r + 1) * shape[1]]) for r in range(shape[0])]
+            env = env_of(A, 1, 1)
+            a_ref = rng(1, 1, shape)
+            taddr = AddressRange('S!' + rng(11, 1, shape))
+            for f in funcs:
+                o = ev.run(f.format(a=a_ref), env, cse=taddr)
+                acc.add('evaluations')
+                acc.add('states')
+                acc.add('distinct_nontrivial')
+                exp = [[(lambda r: r[1] if r[0] == 'ok' else ('exc', r[1]))(evs.run(f.format(a='X1'), {'X1': x})) for x in row] for row in A]
+                got = to_lists(o[1]) if o[0] == 'ok' else o
+                if o[0] != 'ok' or not isinstance(got, list) or any(
+                        not W.veq(got[a][b], exp[a][b]) for a in range(shape[0]) for b in range(shape[1])):
+                    acc.violation(dict(kind='typemix', fn=f, formula=f.format(a=a_ref), values=jsonable(A), verdict='wrong-element',
+                                       observed=jsonable(got), expected=jsonable(exp)),
+                                  f'{{{f.format(a=a_ref)}}} over {A} = {got!r}, scalar application per element gives {exp!r}')
+            if i % 7 == 0:
+                for op in ops:
+                    for sc in scalars:
+                        for form, sf in ((f'={a_ref}{op}F1', f'=X1{op}Y1'), (f'=F1{op}{a_ref}', f'=Y1{op}X1')):
+                            e2 = dict(env)
+                            if sc is not None:
+                                e2['F1'] = sc
+                            o = ev.run(form, e2, cse=taddr)
+                            acc.add('evaluations')
+                            exp = [[(lambda r: r[1] if r[0] == 'ok' else ('exc', r[1]))(evs.run(sf, {'X1': x, 'Y1': sc})) for x in row] for row in A]
+                            got = to_lists(o[1]) if o[0] == 'ok' else o
+                            if o[0] != 'ok' or not isinstance(got, list) or any(
+                                    not W.veq(got[a][b], exp[a][b]) for a in range(shape[0]) for b in range(shape[1])):
+                                acc.violation(dict(kind='typemix', fn=op, formula=form, values=jsonable(A), scalar=jsonable(sc),
+                                                   verdict='wrong-element', observed=jsonable(got), expected=jsonable(exp)),
+                                              f'{{{form}}} with array {A} and scalar F1={sc!r} = {got!r}, scalar application gives {exp!r}')
+    acc.counts['transitions'] = acc.counts.get('evaluations', 0)
+    return acc.result()
+
+
 def work_workbook(job):
     k0, m = job
     acc = Acc()
@@ -248,6 +302,7 @@ def run(ctx):
     m = 64
     ctx.pmap(work_ctx, [((k + ctx.seed) % m, m) for k in range(m)], timeout=6000)
     ctx.pmap(work_workbook, [(k, 32) for k in range(32)], timeout=6000)
+    ctx.pmap(work_typemix, [(k, 32) for k in range(32)], timeout=6000)
     ctx.counts['traces_validated_against_impl'] = ctx.counts.get('evaluations', 0)
     ctx.extra['shapes'] = len(SHAPES)
     ctx.extra['operators'] = OPS
@@ -255,6 +310,11 @@ def run(ctx):
 
 
 def replay(case):
+    if case['kind'] == 'typemix':
+        r = work_typemix((0, 1))
+        hits = [m for c, m in r['violations'] if c.get('formula') == case.get('formula') and c.get('values') == case.get('values')
+                and c.get('scalar') == case.get('scalar')]
+        return bool(hits), '\n'.join(hits[:2]) or 'no violation'
     if case['kind'] == 'ctx':
         r = work_ctx((0, 1))
     else:
